@@ -95,6 +95,7 @@ type histState struct {
 	// to remember, and no successful Pack happened since; the names it had got through
 	failedCompressed bool
 	failedNames      map[string]bool
+	failedSrc        wm.Msg   // the message of that Pack without the ill-formed record
 	heldLib          *dns.OPT // the OPT record while it is out of the message (same pointer goes back in)
 	heldRec          *wm.Rec
 	// classification only: where the upper RCODE bits in the OPT record of the value came from
@@ -270,10 +271,10 @@ func (s *histState) applyStep(st histStep) ([]string, error) {
 				break
 			}
 			x, compress = o, st.C
-			s.failedNames = suffixKeys(src)
+			s.failedNames, s.failedSrc = suffixKeys(src), src
 		} else {
 			classes = append(classes, "failed-pack:same-value")
-			s.failedNames = suffixKeys(s.cur)
+			s.failedNames, s.failedSrc = suffixKeys(s.cur), s.cur
 		}
 		var sec *[]dns.RR
 		switch st.N % 3 {
@@ -509,11 +510,35 @@ func checkHistory(c histCase) error {
 			return finish(err)
 		}
 		note(w)
-		if w != nil {
+		if w != nil && s.compress && compressible(s.cur) {
 			s.failedCompressed = false
 		}
 		if w != nil && s.cur.Opt() >= 0 {
 			s.origin = "pack"
+		}
+	}
+	// A compressed Pack failed and no compressed Pack was held to the statement since (the value has
+	// Compress off, holds nothing to compress, or the history ended): the same message without the
+	// ill-formed record, and the message the value holds now, are packed compressed from fresh values.
+	// (Also keeps a case self-contained: whatever that failure left behind is met here, not by the
+	// first Pack of the next case.)
+	if s.failedCompressed {
+		for i, m := range []wm.Msg{s.failedSrc, s.cur} {
+			w, encErr := wm.Encode(m)
+			fresh, err := wm.MsgToLib(m, true)
+			if encErr != nil || err != nil || !compressible(m) {
+				continue
+			}
+			p, err := fresh.Pack()
+			at := []string{"fresh value holding the message whose Pack failed, without the ill-formed record", "fresh value holding the final message"}[i]
+			if err != nil {
+				return finish(pbt.Errf("history, %s: Pack with Compress set failed on a representable message: %v (reference %s)", at, err, hx(w)))
+			}
+			if err := compressedImage(at, p, w); err != nil {
+				return finish(err)
+			}
+			classes = append(classes, "compressed-pack-after-failed-compressed-pack", "fresh-value-after-failed-compressed-pack")
+			note(p)
 		}
 	}
 	if len(classes) > 0 {
